@@ -16,6 +16,33 @@ INVARIANT = {"UPGrad", "DualProj", "MGDA", "Mean", "Sum", "AlignedMTL", "IMTLG",
              "Krum", "GradDrop", "Constant"}
 
 
+def mgda_margin(Jt, epsilon=1e-3, max_iters=100):
+    """smallest relative margin of any discrete decision of the Frank-Wolfe iteration (argmin gap, line-search branches,
+    stopping test), measured in double precision.  Used ONLY to skip inputs on which a row permutation may legitimately
+    change the path (the property excludes score ties; §4.2, theorem C10b.mgda_row_perm_of_margin)."""
+    G = (Jt.double() @ Jt.double().T)
+    m = G.shape[0]
+    sc = float(G.abs().max()) or 1.0
+    alpha = torch.ones(m, dtype=torch.float64) / m
+    mg = 1.0
+    for _ in range(max_iters):
+        ga = G @ alpha
+        vals = ga.sort().values
+        if m > 1:
+            mg = min(mg, float(vals[1] - vals[0]) / sc)
+        t = int(torch.argmin(ga))
+        a, b, c = float(ga[t]), float(alpha @ ga), float(G[t, t])
+        mg = min(mg, abs(c - a) / sc, abs(b - a) / sc)
+        gamma = 1.0 if c <= a else (0.0 if b <= a else (b - a) / (b + c - 2 * a))
+        mg = min(mg, abs(gamma - epsilon))
+        e = torch.zeros(m, dtype=torch.float64)
+        e[t] = 1.0
+        alpha = (1 - gamma) * alpha + gamma * e
+        if gamma < epsilon:
+            break
+    return mg
+
+
 def one(ctx: Ctx, spec, dtype, m, exhaustive):
     rng = ctx.rng
     m = max(m, spec.min_rows)
@@ -32,6 +59,14 @@ def one(ctx: Ctx, spec, dtype, m, exhaustive):
         J = dependent_rows(rng, m, rng.choice([m - 1, m, m + 2]))
         n = len(J[0])
         ctx.count("family", "dependent-rows")
+        if spec.name == "IMTLG":
+            from agg_common import ask_agg, fr_list
+            dn = [Fr(float(v)) for v in to_tensor(J, torch.float64).norm(dim=1).tolist()]
+            rep = ask_agg(ctx.driver, "imtlgp", J, d=dn, guard=Fr(1, 10 ** 12))
+            wm = None if rep is None else fr_list(rep[1])
+            if wm is None or all(v == 0 for v in wm) or sum(abs(v) for v in wm) > 50:
+                ctx.count("skipped_low_margin", "IMTLG: weights sum near zero")     # discontinuity of v / sum(v), §4.2
+                return
     elif spec.pinv or spec.solver or spec.ties or spec.threshold:
         J = well_conditioned(rng, m, n)
     else:
@@ -55,6 +90,9 @@ def one(ctx: Ctx, spec, dtype, m, exhaustive):
             pv = rng.sample([1, 2, 3, 4, 5, 6], m)
     seed = rng.randrange(10 ** 6)
     A = spec.make(m, dtype, pv)
+    if spec.name == "MGDA" and mgda_margin(Jt) < (1e-3 if dtype == torch.float32 else 1e-7):
+        ctx.count("skipped_low_margin", "MGDA")       # a near-tie in some iteration: the path may depend on the row order
+        return
     st, x = attempt(A, Jt, seed)
     rp = {"aggregator": spec.name, "pref": str(pv), "J": [[str(v) for v in r] for r in J], "dtype": str(dtype), "torch_seed": seed}
     if st != "ok":
